@@ -13,14 +13,14 @@ from .. import sp
 ID = "C08"
 META = {
     "technique": "runtime monitoring: icontract class invariant on Library + lock-step executable list model + atomicity monitor on ValueError, over bounded-exhaustive and random call histories",
-    "level_text": "All histories of add/remove/replace calls (47 call shapes over a 14-block universe (incl. equal-but-distinct copies of one entry and of one comment, and instances of user-defined Entry/String subclasses) with colliding keys) to depth k and random histories of depth 30 are executed on the real Library; after every call the icontract invariant checks the view equations and the partition, the list model checks identity/order/position/wrappers, and every call that raised ValueError must leave the observable state (incl. the order of `strings`) unchanged. The random histories also run in libraries pre-filled with 15 ... 300 filler blocks (both sides of 16, 64, 128, 256).",
+    "level_text": "All histories of add/remove/replace calls (47 call shapes over a 14-block universe (incl. equal-but-distinct copies of one entry and of one comment, and instances of user-defined Entry/String subclasses) with colliding keys) to depth k and random histories of depth 30 are executed on the real Library; after every call the icontract invariant checks the view equations and the partition, the list model checks identity/order/position/wrappers, and every call that raised ValueError must leave the observable state (incl. the order of `strings`) unchanged. The random histories also run in libraries pre-filled with 15 ... 300 filler blocks (both sides of 16, 64, 128, 256). A call shape add([..., X]) in which registering X raises something other than ValueError (unhashable key) is part of the alphabet: any prefix of the list may be taken, the views must describe exactly the held blocks afterwards.",
     "level_note": "the model is identity-based (the block passed in is the one removed / replaced, at its position); remove([..]) removes all or nothing; when a call names a block that is not held itself while an equal copy is, either outcome (ValueError, or acting on the copy) is accepted; known finding K1",
 }
 RULE = ("case = history (list of calls) over the universe {e(a), e'(a), e(b), field-less e(c), e'(c), s(a), s'(a), s(b), preamble, comment}; all histories to depth k plus "
         "random depth-30 histories; non-trivial = the history reaches a state with a duplicate wrapper or contains a raising call; "
         "distinct = distinct history")
 ASSUMPTIONS = ["block keys are not mutated while held", "K1 (add(..., fail_on_duplicate_key=True) raises after inserting) is a listed known finding"]
-MIN = {"library_invariant": (200000, 2000000), "model_step": (100000, 1000000), "atomicity_on_ValueError": (20000, 200000), "big_library_history": (500, 20000)}
+MIN = {"library_invariant": (200000, 2000000), "model_step": (100000, 1000000), "atomicity_on_ValueError": (20000, 200000), "big_library_history": (500, 20000), "raising_call_other_than_ValueError": (5000, 50000)}
 
 NAMES = ["ea", "eac", "e2a", "exa", "eb", "e0c", "e2c", "sa", "s2a", "sxa", "sb", "p", "c", "cc"]
 REPLACE_PAIRS = [("ea", "e2a"), ("ea", "eb"), ("eb", "e2a"), ("sa", "s2a"), ("sa", "ea"), ("e2a", "ea"), ("p", "c"), ("c", "eb"), ("eb", "sa"), ("sa", "sb"), ("sb", "s2a"), ("eb", "e2c"), ("p", "e0c"), ("eb", "exa"), ("sb", "sxa"), ("eac", "eb"), ("eb", "eac"), ("cc", "eb"), ("cc", "e2a"), ("c", "cc"), ("p", "cc")]
@@ -34,6 +34,10 @@ def all_ops():
     ops += [["rp", a, b, f] for a, b in REPLACE_PAIRS for f in (True, False)]
     ops += [["rmw"], ["rpw", "eb", False], ["rpw", "e2a", True]]
     ops += [["rml", ["ea", "p"]], ["rml", ["c", "cc"]]]
+    # add([... , X]) where registering X raises something other than ValueError (an entry with an unhashable key; seed C08-n: the
+    # list was registered as a whole before it was appended as a whole): "including calls that raise" - whatever part of the list
+    # the library took, the views must describe exactly the blocks it holds
+    ops += [["addlx", ["eb"]], ["addlx", ["e0c", "sb"]]]
     return ops
 
 
@@ -217,7 +221,9 @@ def check(case, ctx):
         # ---- model: expected outcome per the statement
         exp_raise = False
         tolerant = False      # the call names a block that is not held itself while an equal copy is: either outcome accepted
-        if kind in ("add", "addf", "addl"):
+        if kind == "addlx":
+            pass          # decided after the call: some prefix of the list was taken
+        elif kind in ("add", "addf", "addl"):
             names = op[1] if kind == "addl" else [op[1]]
             new_slots = []
             for n in names:
@@ -291,6 +297,40 @@ def check(case, ctx):
             elif kind == "rpw":
                 lib.replace(lib.failed_blocks[0], U[op[1]], fail_on_duplicate_key=op[2])
         raised = None
+        if kind == "addlx":
+            from bibtexparser import model as M
+            bad = M.Entry("misc", ["unhashable"], [])
+            try:
+                lib.add([U[n] for n in op[1]] + [bad])
+                threw = None
+            except BaseException as e:  # noqa
+                if isinstance(e, (KeyboardInterrupt, SystemExit)):
+                    raise
+                threw = type(e).__name__
+            ctx.ran()
+            ctx.mon("raising_call_other_than_ValueError")
+            ok = False
+            for j in range(len(op[1]), -1, -1):
+                m2 = pre_model.copy()
+                for n in op[1][:j]:
+                    m2.slots.append(m2.make(n))
+                if compare_model(lib, m2, U, None) is None:
+                    model, ok = m2, True
+                    break
+            why = None
+            if ok:
+                try:
+                    contracts.library_views_consistent(lib)
+                    why = contracts.LAST.get("library_invariant")
+                except contracts.InvariantBroken as e:
+                    why = str(e)
+                except TypeError:
+                    why = "a view raises TypeError: the block with the unhashable key is held"
+            if not ok or why or threw is None:
+                out.append(Violation("invariant", f"C08:after-raising-add-of-a-list:{'views-inconsistent' if ok else 'blocks-are-no-prefix' if threw else 'no-exception'}",
+                                     dict(step=step, op=op, threw=threw, why=why, history=case["h"][:step + 1], blocks=[sp.block_kind(b) for b in lib.blocks])))
+                break
+            continue
         try:
             call()
         except ValueError as e:
